@@ -3,13 +3,13 @@ import PsModel.Model.C09
 import PsModel.Spec.C09
 /-! line-protocol front end of the C09 model
 
-`C09 (run cont sub (op…) (probeEnt…) (probeEv…))` with `cont` = 0|1, `sub` = legacy|new, ops
+`C09 (run cont sub (op…) (probeEnt…) (probeEv…) (probeSvc…))` with `cont` = 0|1, `sub` = legacy|new, ops
 `(define ctx name ((var…)…) (ev…) (svc…) su sd)` (`var` = `(comp…)`, in the iteration order observed on the
 implementation), `(del ctx name)`, `(rebind ctx dst src)`, `(put slot ctx name)`, `(drop slot)`, `(unloadctx ctx)`,
 `(unloadall)`.
 
 answer: one block per op, joined by ` | `:
-`st=(ent:n …) ev=(ty:n …) bus=(ty:n …) svc=(name …) log=(kind:id …) runs=(probe:id,id …)`
+`st=(ent:n …) ev=(ty:n …) bus=(ty:n …) svc=(name:count …) own=(name:ctx …) log=(kind:id …) runs=(probe:id,id …)`
 `runs` is the SPEC's answer: which generations an occurrence of each probe must run (the active ones that declare it).
 -/
 namespace PsModel.C09
@@ -53,31 +53,36 @@ def runsEvent (w : World) (ty : String) : List Nat :=
 
 def natsStr (l : List Nat) : String := ",".intercalate (l.map toString)
 
-def showWorld (sub : Sub) (w : World) (logFrom : Nat) (pe : List Ent) (pv : List String) : String :=
+def runsSvc (w : World) (n : String) : List Nat :=
+  (w.started.filter (fun g => g.services.contains n)).map (·.id)
+
+def showWorld (sub : Sub) (w : World) (logFrom : Nat) (pe : List Ent) (pv ps : List String) : String :=
   let st := (w.st.filter (fun kv => !kv.2.isEmpty)).map (fun kv => s!"{".".intercalate kv.1}:{kv.2.length}")
   let ev := (w.ev.tbl.filter (fun kv => !kv.2.isEmpty)).map (fun kv => s!"{".".intercalate kv.1}:{kv.2.length}")
   let bus := (w.ev.bus.filter (fun kv => kv.2 != 0)).map (fun kv => s!"{kv.1}:{kv.2}")
-  let svc := (w.svc.filter (fun kv => kv.2 != 0)).map (·.1)
+  let svc := (w.svc.filter (fun kv => kv.2 != 0)).map (fun kv => s!"{kv.1}:{kv.2}")
+  let own := w.owner.map (fun kv => s!"{kv.1}:{kv.2}")
   let log := (w.log.drop logFrom).map (fun kv => s!"{kv.1}:{kv.2}")
   let runs := pe.map (fun e => s!"{".".intercalate e}:{natsStr (runsState sub w e)}") ++
-              pv.map (fun ty => s!"{ty}:{natsStr (runsEvent w ty)}")
-  s!"st={join st} ev={join ev} bus={join bus} svc={join svc} " ++
+              pv.map (fun ty => s!"{ty}:{natsStr (runsEvent w ty)}") ++
+              ps.map (fun n => s!"{n}:{natsStr (runsSvc w n)}")
+  s!"st={join st} ev={join ev} bus={join bus} svc={join svc} own={join own} " ++
     s!"log={join log} runs=({" ".intercalate runs})"
 
-def runOps (cont : Bool) (sub : Sub) (pe : List Ent) (pv : List String) : World → List Op → List String → List String
+def runOps (cont : Bool) (sub : Sub) (pe : List Ent) (pv ps : List String) : World → List Op → List String → List String
   | _, [], acc => acc.reverse
   | w, op :: rest, acc =>
     let w' := step cont sub w op
-    runOps cont sub pe pv w' rest (showWorld sub w' w.log.length pe pv :: acc)
+    runOps cont sub pe pv ps w' rest (showWorld sub w' w.log.length pe pv ps :: acc)
 
 def handle (x : Sexp) : String :=
   match x with
-  | .list [.atom "run", c, .atom s, .list ops, pes, pvs] =>
+  | .list [.atom "run", c, .atom s, .list ops, pes, pvs, pss] =>
     match c.bool?, (match s with | "legacy" => some Sub.legacy | "new" => some Sub.new | _ => none),
-          Sexp.mapM? op? ops, Sexp.listOf? strs? pes, strs? pvs with
-    | some cont, some sub, some os, some pe, some pv =>
-      " | ".intercalate (runOps cont sub pe pv emptyWorld os [])
-    | _, _, _, _, _ => "err parse"
+          Sexp.mapM? op? ops, Sexp.listOf? strs? pes, strs? pvs, strs? pss with
+    | some cont, some sub, some os, some pe, some pv, some ps =>
+      " | ".intercalate (runOps cont sub pe pv ps emptyWorld os [])
+    | _, _, _, _, _, _ => "err parse"
   | _ => "err bad-command"
 
 end PsModel.C09
